@@ -700,7 +700,9 @@ impl<'a> Driver<'a> {
                     let peer = *self.rng.pick(&ids);
                     let a = match self.rng.below(5) {
                         0 => Action::Ping { n },
-                        1 => Action::Campaign { n },
+                        // RawNode::campaign() on a non-voter is the application's decision and outside
+                        // the properties (C09: "on its own"); the simulated application never does it.
+                        1 if self.world.nodes[&n].obs.promotable => Action::Campaign { n },
                         2 => Action::ReportUnreachable { n, peer },
                         3 => Action::ReportSnapshot { n, peer, ok: self.rng.pm(500) },
                         _ => Action::Ping { n },
